@@ -40,9 +40,11 @@ Theorem C11_tokio_read_exact_indep_eof : forall (HO : hops) (r : reader HO) (len
 Proof. exact tokio_read_n_short. Qed.
 Print Assumptions C11_tokio_read_exact_indep_eof.
 
-(* read_bytes_exact = take(len).read_to_end + length check: every schedule, EIntr included *)
+(* read_bytes_exact = take(len).read_to_end + length check.  tokio's read_to_end (unlike std's) returns an
+   Interrupted of the transport instead of retrying it, so again for schedules without EIntr
+   (C11_tokio_read_bytes_interrupted_is_propagated below: the hypothesis is needed) *)
 Theorem C11_tokio_read_bytes_exact_indep : forall (HO : hops) (r : reader HO) (len : N),
-  rd_fail HO r = None -> len <= blen HO (rd_rest HO r) ->
+  rd_fail HO r = None -> (forall e, In e (rd_sched HO r) -> e <> EIntr) -> len <= blen HO (rd_rest HO r) ->
   exists r', tokio_read_bytes_exact HO r len = (Ok (firstn (N.to_nat len) (rd_rest HO r)), r') /\
     rd_rest HO r' = skipn (N.to_nat len) (rd_rest HO r) /\ rd_fail HO r' = None /\
     (exists consumed, rd_sched HO r = consumed ++ rd_sched HO r').
@@ -50,11 +52,18 @@ Proof. exact tokio_read_bytes_exact_enough. Qed.
 Print Assumptions C11_tokio_read_bytes_exact_indep.
 
 Theorem C11_tokio_read_bytes_exact_indep_eof : forall (HO : hops) (r : reader HO) (len : N),
-  rd_fail HO r = None -> blen HO (rd_rest HO r) < len ->
+  rd_fail HO r = None -> (forall e, In e (rd_sched HO r) -> e <> EIntr) -> blen HO (rd_rest HO r) < len ->
   exists r', tokio_read_bytes_exact HO r len = (Err KUnexpectedEof, r') /\ rd_fail HO r' = None /\
     (exists consumed, rd_sched HO r = consumed ++ rd_sched HO r').
 Proof. exact tokio_read_bytes_exact_short. Qed.
 Print Assumptions C11_tokio_read_bytes_exact_indep_eof.
+
+(* the hypothesis is needed: one byte, then an Interrupted, with both bytes available: Err(Interrupted) *)
+Theorem C11_tokio_read_bytes_interrupted_is_propagated : forall (HO : hops),
+  tokio_read_bytes_exact HO (mkRd HO [bzero HO; bzero HO] [EFrag 1; EIntr] 0 None) 2
+  = (Err KInterrupted, mkRd HO [bzero HO] [] 2 None).
+Proof. exact tokio_read_bytes_interrupted_is_propagated. Qed.
+Print Assumptions C11_tokio_read_bytes_interrupted_is_propagated.
 
 (* the sync decoder: same items, same outcome, for every stream and every schedule *)
 Theorem C11_decode_indep_sync : forall (HO : hops) root t (stream : bytes HO) (sched : list ev) q,
@@ -73,7 +82,8 @@ Theorem C11_decode_indep_sync_state : forall (HO : hops) root t (stream : bytes 
 Proof. exact decode_indep_sync_state. Qed.
 Print Assumptions C11_decode_indep_sync_state.
 
-(* the fsm decoder (tokio read_exact for parents): same for every schedule without Interrupted *)
+(* the fsm decoder (tokio read_exact for parents, tokio take(len).read_to_end for leaves; neither retries an
+   Interrupted): same for every schedule without Interrupted *)
 Theorem C11_decode_indep_fsm : forall (HO : hops) root q t (stream : bytes HO) (sched : list ev),
   (forall e, In e sched -> e <> EIntr) ->
   fst (rd_run_r HO (rd_new_r HO root q t (mkRd HO stream sched 0 None)))
@@ -91,12 +101,21 @@ Theorem C11_decode_indep_fsm_state : forall (HO : hops) root q t (stream : bytes
 Proof. exact decode_indep_fsm_state. Qed.
 Print Assumptions C11_decode_indep_fsm_state.
 
-(* the hypothesis is needed: an Interrupted during a parent read is not retried *)
+(* the hypothesis is needed: an Interrupted during a parent read is not retried ... *)
 Theorem C11_decode_fsm_interrupted_differs : forall (HO : hops),
   fst (rd_run_r HO (rd_new_r HO [] [0] (mkTree 2048 0) (mkRd HO [] [EIntr] 0 None))) = ([], Failed (DIo KInterrupted)) /\
   fst (rd_run HO (rd_new HO [] [0] (mkTree 2048 0) [])) = ([], Failed (DParentNotFound 0)).
 Proof. exact decode_fsm_interrupted_differs. Qed.
 Print Assumptions C11_decode_fsm_interrupted_differs.
+
+(* ... nor is one during a LEAF read (one leaf of 2 bytes, both present; the transport hands out one byte, then
+   returns Interrupted): the run fails with Io(Interrupted), which the run over the plain bytes never reports *)
+Theorem C11_decode_fsm_leaf_interrupted_is_propagated : forall (HO : hops) root,
+  fst (rd_run_r HO (rd_new_r HO root [0] (mkTree 2 0) (mkRd HO [bzero HO; bzero HO] [EFrag 1; EIntr] 0 None)))
+    = ([], Failed (DIo KInterrupted)) /\
+  snd (fst (rd_run HO (rd_new HO root [0] (mkTree 2 0) [bzero HO; bzero HO]))) <> Failed (DIo KInterrupted).
+Proof. exact decode_fsm_leaf_interrupted_is_propagated. Qed.
+Print Assumptions C11_decode_fsm_leaf_interrupted_is_propagated.
 
 (* outboard creation: same result (root or error), same written bytes *)
 Theorem C11_outboard_indep : forall (HO : hops) t (data : bytes HO) (sched : list ev),
